@@ -71,8 +71,15 @@ def names_used(frec):
     return out
 
 
-def _terms(frec, sigs, inline_raise=False):
+COLLECTING = ("listcomp", "genexp", "dictcomp", "thunks", "comp_after_lambda")
+
+
+def _terms(frec, sigs, inline_raise=False, collect=False):
     """(expression texts of the ops before the first `none`, ends_with_none, needs_raise_helper)
+
+    collect: the template evaluates all terms first and adds them up afterwards; a read is then
+    spelled `0 + name` so that reading something that is not a number (a space-valued reference)
+    fails where the plain rendering `_a += name` fails -- at that op, not after the later ones.
 
     inline_raise: `raise` is spelled as an expression (a generator's throw) instead of a call of a
     helper function defined at the top of the formula."""
@@ -83,7 +90,7 @@ def _terms(frec, sigs, inline_raise=False):
         if k == "const":
             terms.append(str(op[1]))
         elif k == "read":
-            terms.append(".".join(op[1]))
+            terms.append(("0 + " if collect else "") + ".".join(op[1]))
         elif k == "call":
             terms.append(NONE_WRAP % cz.call_src(op, ps, sigs.get(op[1][-1])))
         elif k == "icall":
@@ -232,7 +239,8 @@ def render_t(frec, name, sigs, tname, ctx=None):
         return cz.render(f2, name, sigs)
     ctx = dict(ctx or {})
     ctx["used"] = names_used(frec)
-    terms, ends_none, helper = _terms(frec, sigs, inline_raise=tname in ("dictcomp", "comp_after_lambda"))
+    terms, ends_none, helper = _terms(frec, sigs, inline_raise=tname in ("dictcomp", "comp_after_lambda"),
+                                       collect=tname in COLLECTING)
     ind = "    "
     catch = frec.get("catch", False)
     pre = ind * 2 if catch else ind
